@@ -294,10 +294,61 @@ def minimise(spec, env_a, env_b, rule, budget_s=240):
     return spec, {"minimised": True, "reproduced": True, "tests": tests[0], "seconds": round(time.perf_counter() - t0, 1)}
 
 
+def run_worker(root, bases, order, tag, clock=1_700_000_000.0):
+    """Build-worker environment: ONE interpreter generates a whole sequence of different requests
+    (absolute option paths).  Returns {position: digest | None}."""
+    args = [sys.executable, GENCLI, "--clock", repr(clock), "--count-file", os.path.join(root, f"cnt_{tag}.txt")]
+    outs = []
+    for pos, i in enumerate(order):
+        out = os.path.join(root, f"worker_{tag}_{pos}.bin")
+        outs.append(out)
+        args += [os.path.join(bases[i], "files", "req_abs.bin"), out]
+    e = dict(os.environ)
+    e["PYTHONHASHSEED"] = "0"
+    subprocess.run(args, cwd=root, env=e, capture_output=True, timeout=3000)
+    res = {}
+    for pos, out in enumerate(outs):
+        if os.path.exists(out) and not os.path.exists(out + ".err"):
+            with open(out, "rb") as f:
+                res[pos] = hashlib.sha256(f.read()).hexdigest()
+        else:
+            res[pos] = None
+    return res
+
+
+def replay_worker(rp):
+    """Replay of a process_reuse_differs violation: same sequence in one interpreter vs fresh processes."""
+    from concurrent.futures import ThreadPoolExecutor
+    root = tempfile.mkdtemp(prefix="gapic-dsim-c10w-", dir=world.scratch_root())
+    try:
+        bases = []
+        for i, spec in enumerate(rp["specs"]):
+            b = os.path.join(root, f"r{i}")
+            os.makedirs(b)
+            bases.append(b)
+            materialise(spec, b)
+        env = {"hashseed": 0, "cwd": "root", "stdin": False, "TZ": "UTC", "LANG": "C", "umask": 0o022, "noise": {}, "clock": 1.7e9, "reuse": None}
+        pool = ThreadPoolExecutor(8)
+        refs = [f.result() for f in [pool.submit(launch, b, env, "ref") for b in bases]]
+        w = run_worker(root, bases, rp["order"], "rp")
+        bad = [(pos, i) for pos, i in enumerate(rp["order"]) if refs[i]["digests"] and w[pos] != refs[i]["digests"][0]]
+        return bad
+    finally:
+        shutil.rmtree(root, ignore_errors=True)
+
+
 def run_replay(path):
     from concurrent.futures import ThreadPoolExecutor
     with open(path) as f:
         rp = json.load(f)
+    if rp.get("rule") == "process_reuse_differs":
+        bad = replay_worker(rp)
+        if bad:
+            print(f"VIOLATION property=C10 replay={path}")
+            print(f"  rule=process_reuse_differs generation #{bad[0][0]} of the sequence (request {bad[0][1]}) differs from a fresh process")
+            return 1
+        print(f"OK property=C10 replay {path}: the sequence generates the same bytes as fresh processes on the current tree")
+        return 0
     base = tempfile.mkdtemp(prefix="gapic-dsim-c10r-", dir=world.scratch_root())
     try:
         res = check_request(rp["spec"], base, rp["environments"], ThreadPoolExecutor(4))
@@ -339,6 +390,7 @@ def main(argv):
     violations = []
     printed = set()
     new = 0
+    ref_digest = {}
     try:
         specs = []
         for i in range(nreq):
@@ -350,6 +402,11 @@ def main(argv):
             os.makedirs(base)
             bases.append(base)
             materialise(spec, base)
+        # build-worker environments run alongside: ONE interpreter generates every request, in four orders
+        widx = list(range(len(specs)))
+        wr = R.stream(seed, "c10", "worker-order")
+        orders = {"fwd": list(widx), "rev": widx[::-1], "shuf1": wr.sample(widx, len(widx)), "shuf2": wr.sample(widx, len(widx))}
+        wfuts = {k: pool.submit(run_worker, root, bases, o, k) for k, o in orders.items()}
         # all environments of all requests are submitted at once
         jobs = []
         for i, spec in enumerate(specs):
@@ -375,6 +432,8 @@ def main(argv):
                 stats["stdin_runs"] += 1 if (env["stdin"] and not env["reuse"]) else 0
                 stats["relative_option_paths"] += 1 if env["cwd"] == "files" else 0
             v, d = judge(res)
+            if v == "ok":
+                ref_digest[i] = res[0]["digests"][0]
             if v == "unbuildable":
                 stats["unbuildable"] += 1
                 stats.setdefault("unbuildable_errors", []).append(d["errors"][:1])
@@ -413,6 +472,32 @@ def main(argv):
                 print(f"  rule={d['rule']} {d['msg']}" + (f" first difference: {json.dumps(detail)[:400]}" if detail else ""))
                 if new >= 3:
                     break
+        # ---- build-worker environments: compare every generation with the fresh-process reference
+        if new == 0 and len(ref_digest) >= 2:
+            for k, fut in wfuts.items():
+                w = fut.result()
+                stats["processes"] += 1
+                stats["worker_generations"] = stats.get("worker_generations", 0) + len(w)
+                for pos, i in enumerate(orders[k]):
+                    if i in ref_digest and w[pos] != ref_digest[i]:
+                        sig = "a generation differs when earlier requests were generated in the same interpreter"
+                        kf = findings.match(known, "C10", "process_reuse_differs", sig)
+                        if kf is not None:
+                            if sig not in printed:
+                                printed.add(sig)
+                                print(f"KNOWN-FINDING: property=C10 {kf['description']}")
+                            break
+                        new += 1
+                        os.makedirs(os.path.join(VERIF, "out", "replays"), exist_ok=True)
+                        path = os.path.join(VERIF, "out", "replays", f"C10-{seed}-worker-{k}.json")
+                        with open(path, "w") as f:
+                            json.dump({"property": "C10", "rule": "process_reuse_differs", "signature": sig, "seed": seed,
+                                       "message": f"generation #{pos} (request {i}) in a build-worker interpreter differs from the same request generated in a fresh process",
+                                       "specs": specs, "order": orders[k][:pos + 1]}, f, default=str)
+                        print(f"VIOLATION property=C10 replay={path}")
+                        print(f"  rule=process_reuse_differs generation #{pos} of order '{k}' (request {i}) differs from the bytes produced by a fresh process "
+                              f"({'no output' if w[pos] is None else 'different digest'})")
+                        break
     finally:
         pool.shutdown(wait=True, cancel_futures=True)
         shutil.rmtree(root, ignore_errors=True)
@@ -431,6 +516,7 @@ def main(argv):
                   "unbuildable_errors": stats.get("unbuildable_errors", [])[:3],
                   "environments_per_request": nenv, "distinct_hash_seeds": len(stats["hashseeds"]),
                   "process_reuse_runs": stats["reuse_runs"], "stdin_runs": stats["stdin_runs"],
+                  "build_worker_generations": stats.get("worker_generations", 0),
                   "relative_option_path_runs": stats["relative_option_paths"], "distinct_clock_instants": len(stats["clock_instants"]),
                   "faults_fired": {"hash_seed_change": stats["processes"], "process_reuse": stats["reuse_runs"],
                                    "cwd_change": stats["processes"], "env_noise": stats["processes"], "fake_wall_clock": stats["processes"]},
